@@ -248,15 +248,16 @@ IdxO(sl)   == IF Full(sl) THEN U.idx ELSE U.idxo       \* object-argument splice
 CntO(sl)   == IF Full(sl) THEN U.cnt ELSE U.cnto
 NO(sl)     == IF Full(sl) THEN U.n ELSE U.no
 
+\* the rarer constructors are offered for re-initialisation only with the full universes
+Rare(sl, re, S) == IF Full(sl) \/ ~re THEN S ELSE {}
 Construct(sl, re) ==
     \/ OpNew(sl, re) \/ OpNewFromPtrNull(sl, re)
     \/ \E t \in Ptrs(sl) : OpNewFromPtr(sl, re, t)
     \/ \E k \in NumsS(sl) : OpNewFromNum(sl, re, k)
-    \/ /\ Full(sl) \/ ~re
-       /\ \/ \E p \in U.buffs : OpNewFromBuff(sl, re, p[1], p[2])
-          \/ \E n \in U.nullbuffs : OpNewFromBuffNull(sl, re, n)
-          \/ \E c \in U.fps, tr \in U.fptr : OpNewFromFp(sl, re, c, tr)
-          \/ \E c \in U.fds, tr \in U.fdtr : OpNewFromFd(sl, re, c, tr)
+    \/ \E p \in Rare(sl, re, U.buffs) : OpNewFromBuff(sl, re, p[1], p[2])
+    \/ \E n \in Rare(sl, re, U.nullbuffs) : OpNewFromBuffNull(sl, re, n)
+    \/ \E c \in Rare(sl, re, U.fps), tr \in U.fptr : OpNewFromFp(sl, re, c, tr)
+    \/ \E c \in Rare(sl, re, U.fds), tr \in U.fdtr : OpNewFromFd(sl, re, c, tr)
 
 NextSlot(sl) ==
     \/ Construct(sl, FALSE) \/ Construct(sl, TRUE)
